@@ -208,7 +208,15 @@ func (fg *FnGen) alloc(x *ssa.Alloc) {
 		return
 	}
 	// zero-initialise
-	l := &Loc{Prefix: typeKey(T), Base: ref, T: T}
+	prefix := typeKey(T)
+	if fg.isPrivateAlloc(x) {
+		// a local whose address never leaves this function (except into closures that are only called or
+		// deferred here): callees cannot reach it, so it lives in its own components
+		prefix = "local!" + fg.fn.Name() + "!" + x.Name() + "!" + typeKey(T)
+		fg.bind(x, &Val{T: x.Type(), L: []Term{ref}})
+		fg.privateRefs[fg.vals[x].L[0].S] = prefix
+	}
+	l := &Loc{Prefix: prefix, Base: ref, T: T}
 	z := fg.zeroVal(T)
 	ls := layout(T)
 	for i, leaf := range ls {
@@ -730,4 +738,78 @@ func (fg *FnGen) panicInstr(x *ssa.Panic) {
 	if fg.safety("panic") {
 		fg.oblige("panic", "unreachable", TFalse, x.Pos(), "explicit panic is unreachable")
 	}
+}
+
+// isPrivateAlloc: the address is used only for loads, stores, field/index addressing, and as a
+// binding of closures that are themselves only called or deferred in this function.
+func (fg *FnGen) isPrivateAlloc(a *ssa.Alloc) bool {
+	if fg.privateOf == nil {
+		fg.privateOf = map[*ssa.Alloc]bool{}
+	}
+	if v, ok := fg.privateOf[a]; ok {
+		return v
+	}
+	var addrOK func(v ssa.Value, depth int) bool
+	addrOK = func(v ssa.Value, depth int) bool {
+		if depth > 4 || v.Referrers() == nil {
+			return false
+		}
+		for _, r := range *v.Referrers() {
+			switch x := r.(type) {
+			case *ssa.UnOp, *ssa.DebugRef:
+			case *ssa.Store:
+				if x.Val == v {
+					return false // the address itself is stored somewhere
+				}
+			case *ssa.FieldAddr:
+				if !addrOK(x, depth+1) {
+					return false
+				}
+			case *ssa.IndexAddr:
+				if !addrOK(x, depth+1) {
+					return false
+				}
+			case *ssa.MakeClosure:
+				// closure must be used only as the callee of a call/defer
+				if x.Referrers() == nil {
+					return false
+				}
+				for _, cr := range *x.Referrers() {
+					switch c := cr.(type) {
+					case *ssa.Defer:
+						if c.Call.Value != ssa.Value(x) {
+							return false
+						}
+					case *ssa.Call:
+						if c.Call.Value != ssa.Value(x) {
+							return false
+						}
+					case *ssa.DebugRef:
+					default:
+						return false
+					}
+				}
+			default:
+				return false
+			}
+		}
+		return true
+	}
+	T := derefType(a.Type())
+	if _, isArr := types.Unalias(T).Underlying().(*types.Array); isArr {
+		fg.privateOf[a] = false
+		return false
+	}
+	// only worthwhile for captured variables (heap allocs with a closure user)
+	hasClosure := false
+	if a.Referrers() != nil {
+		for _, r := range *a.Referrers() {
+			if _, ok := r.(*ssa.MakeClosure); ok {
+				hasClosure = true
+			}
+		}
+	}
+	res := hasClosure && addrOK(a, 0)
+	fg.privateOf[a] = res
+	return res
 }
